@@ -188,6 +188,22 @@ func (d *driver) minimise(sc *sim.Scenario) *sim.Scenario {
 // fixed rpm build host) must survive minimisation, or the shrunk scenario
 // would "fail" for a reason the property excludes.
 func protectedPath(prop string, path []any) bool {
+	if prop == "C10" {
+		// precondition of C10: signing is configured. Neither a signature
+		// block nor a block that may contain one is dropped.
+		for _, e := range path {
+			if e == "signature" {
+				return true
+			}
+		}
+		switch len(path) {
+		case 1:
+			return path[0] == "deb" || path[0] == "rpm" || path[0] == "apk" || path[0] == "overrides"
+		case 2:
+			return path[0] == "overrides"
+		}
+		return false
+	}
 	if prop != "C12" && prop != "C07" {
 		return false
 	}
